@@ -297,6 +297,33 @@ func bodyLen(t *rapid.T, label string) int {
 	return rapid.IntRange(0, 40).Draw(t, label)
 }
 
+// WriteMayFail: inputs the writer is free to refuse (the property is then vacuous) but, if it
+// writes them, the file must read back unchanged: header names or values with octets >= 0x80
+// (the reader insists on ASCII header fields).
+func (s *Spec) WriteMayFail() (bool, string) {
+	for i := range s.Exchanges {
+		for _, kv := range s.Exchanges[i].Headers {
+			for _, v := range append([]string{kv.Name}, kv.Values...) {
+				for j := 0; j < len(v); j++ {
+					if v[j] >= 0x80 {
+						return true, fmt.Sprintf("header %q of %s has a non-ASCII octet", kv.Name, s.Exchanges[i].URL)
+					}
+				}
+			}
+		}
+	}
+	return false, ""
+}
+
+// oddHeader: a header field whose value (rarely: name) holds octets outside visible ASCII: control
+// characters, DEL, NUL, UTF-8, a lone 0xff. The writer accepts any octets; what it wrote must
+// read back.
+func oddHeader(t *rapid.T) gen.HeaderKV {
+	name := rapid.SampledFrom([]string{"X-Odd", "X-Odd", "X-Odd", "x-odd-2", "X-Od\xc3\xa9"}).Draw(t, "oddname")
+	val := rapid.SampledFrom([]string{"a\x7fb", "\x7f", "a\x00b", "tab\there", "x\x01\x1f", "line\nfeed", "caf\xc3\xa9", "\u00ff", "\u0080", "ok"}).Draw(t, "oddval")
+	return gen.HeaderKV{Name: name, Values: []string{val}}
+}
+
 func exchange(t *rapid.T, u string) ExSpec {
 	e := ExSpec{URL: u, Status: 200, BodyLen: bodyLen(t, "body"), BodyTag: rapid.Uint64().Draw(t, "bodytag")}
 	if rapid.IntRange(0, 2).Draw(t, "oddstatus") == 0 {
@@ -356,6 +383,10 @@ func genSpec(t *rapid.T, wide bool) *Spec {
 			continue
 		}
 		s.Exchanges = append(s.Exchanges, exchange(t, u))
+		if wide && rapid.IntRange(0, 7).Draw(t, "odd") == 0 {
+			e := &s.Exchanges[len(s.Exchanges)-1]
+			e.Headers = append(e.Headers, oddHeader(t))
+		}
 	}
 	// duplicate URL without variants (must fail in b2; in b1 "no Variants header")
 	if len(s.Exchanges) > 0 && rapid.IntRange(0, 19).Draw(t, "dupurl") == 0 {
